@@ -826,6 +826,19 @@ func checkResetCompleteness(c *Ctx, r *Rec, rule string, n *types.Named) {
 		if elsewhere == nil {
 			continue
 		}
+		// a remembered payload (a value of the element type) is harmless once the counter or
+		// flag that validates it is reset: only counters, flags and containers are state proper
+		switch u := f.Type().Underlying().(type) {
+		case *types.Basic:
+			if u.Info()&(types.IsNumeric|types.IsBoolean) == 0 {
+				continue
+			}
+		case *types.Slice, *types.Map, *types.Chan, *types.Pointer:
+		default:
+			if !isCollectionLike(f.Type()) {
+				continue
+			}
+		}
 		construct := role + "." + n.Obj().Name() + "." + f.Name()
 		if resetHere {
 			r.ok(rule, construct, c.pos(f.Pos()), "assigned by other methods and assigned again by RemoveAll")
